@@ -170,6 +170,11 @@ func (e *Engine) VerifyUnit(u *Unit) (res *UnitResult) {
 		renv := fx.specEnvReturn(r)
 		var prev []*Term
 		for k, en := range fx.beh.Ensures {
+			if en.Assumed {
+				// not verified here (and not available to the clauses that follow): callers assume it
+				fx.trusted("assumed clause of " + fn.String() + " (not verified against the body): ensures " + en.Text)
+				continue
+			}
 			t := renv.boolExpr(en.Expr)
 			fx.obligN(r.st, "ensures", fmt.Sprintf("%d@ret%d", k, i), r.pos, Implies(And(prev...), t), r.nassume)
 			prev = append(prev, t)
